@@ -103,9 +103,12 @@ func init() {
 		if q {
 			p.Stages = []Stage{sched("c01flush", 2, 16, 20, prm("variant", "compact")), bfs("lsm", 4, 40, prm("oracle", "c12")), bfs("lsm", 5, 75, prm("oracle", "c12", "ops", "Sa Sb Da Db F C0 C1 T"), seeds[:3]...),
 				// three L0 tables, the newest overlapping both older ones, which are disjoint from each other (the picker must take an oldest-first prefix of L0)
-				bfs("lsm", 5, 30, prm("oracle", "c12", "ops", "Sa Db F T C0"), seq("Sa F Sb F"), seq("Sb F Sa F")), bfs("lsm", 3, 30, prm("oracle", "c12"), seeds[3:]...), bfs("lsm", 2, 40, l0l0, l0seeds...)}
+				bfs("lsm", 5, 30, prm("oracle", "c12", "ops", "Sa Db F T C0"), seq("Sa F Sb F"), seq("Sb F Sa F")),
+				// the last level shrinks (its filler keys are deleted and compacted away) while the level above it still holds a key
+				bfs("lsm", 4, 40, prm("oracle", "c12", "mode", "normal", "keys", 1, "bulk", true, "value_threshold", 1024, "l0_tables", 1, "snapshots", false, "ops", "Sa Da F C0 C1 Nx"), seq("Ux F C0 Nx F C0 Sa F C0 U F C0")), bfs("lsm", 3, 30, prm("oracle", "c12"), seeds[3:]...), bfs("lsm", 2, 40, l0l0, l0seeds...)}
 		} else {
-			p.Stages = []Stage{sched("c01flush", 3, 16, 300, prm("variant", "compact")), sched("c01flush", 2, 16, 300, prm("variant", "compact", "inmemory", false)), bfs("lsm", 6, 600, prm("oracle", "c12")), bfs("lsm", 7, 900, prm("oracle", "c12"), seeds...), bfs("lsm", 7, 300, prm("oracle", "c12", "ops", "Sa Db Da Sb F T C0"), seq("Sa F Sb F"), seq("Sb F Sa F")), bfs("lsm", 5, 600, prm("oracle", "c12", "keys", 3, "nvk", 2), seeds...), bfs("lsm", 5, 900, l0l0, l0seeds...)}
+			p.Stages = []Stage{sched("c01flush", 3, 16, 300, prm("variant", "compact")), sched("c01flush", 2, 16, 300, prm("variant", "compact", "inmemory", false)), bfs("lsm", 6, 600, prm("oracle", "c12")), bfs("lsm", 7, 900, prm("oracle", "c12"), seeds...), bfs("lsm", 7, 300, prm("oracle", "c12", "ops", "Sa Db Da Sb F T C0"), seq("Sa F Sb F"), seq("Sb F Sa F")),
+				bfs("lsm", 8, 600, prm("oracle", "c12", "mode", "normal", "keys", 1, "bulk", true, "value_threshold", 1024, "l0_tables", 1, "snapshots", false, "ops", "Sa Da F C0 C1 Nx Ux"), seq("Ux F C0 Sa F C0")), bfs("lsm", 5, 600, prm("oracle", "c12", "keys", 3, "nvk", 2), seeds...), bfs("lsm", 5, 900, l0l0, l0seeds...)}
 		}
 		return p
 	}
